@@ -180,6 +180,8 @@ theorem judgeNF_ok {e r d : Expr} (h : judgeNF e r d = .ok) : NF.equiv r d = tru
   unfold judgeNF at h
   split at h
   · cases h
+  split at h
+  · cases h
   · cases h
   · rename_i h1 h2
     by_cases heq : NF.equivF (NF.normT r) (NF.normT d) = true
@@ -230,7 +232,8 @@ theorem certificate_sound {K : Type*} [Field K] [CharZero K] {I : K} (hI : I * I
 /-- non-vacuity: the library's `3*x**2` is accepted for `d/dx x**3` (with and without the memo table),
 `2*x**2` is rejected -/
 theorem ex_judge_ok : judge false "x" (.pow (.sym "x") (.int 3)) (.mul (.int 3) [(.sym "x", .int 2)]) = .ok := by
-  simp [judge, judgeNF, absentBad, unsupported, occurs, diffE, powRule, isNumLit, decExp, Expr.eqb,
+  simp [judge, judgeNF, affordable, est, estFacs, estTerms, capMul, capPow, capN, absentBad, unsupported, occurs, diffE,
+    powRule, isNumLit, decExp, Expr.eqb,
     NF.firstErr, NF.firstErrFacs, NF.powErr, NF.orElseErr, NF.maxExp, NF.normT, NF.normFacs, NF.intLit?, NF.mulF,
     NF.powF, NF.npowF, NF.atomF, NF.constF, NF.equivF, NF.patom, NF.pone, NF.pconst, NF.ppow, NF.pmul, NF.pmulTerm,
     NF.padd, NF.mmul, NF.mlt, NF.GI.mul, NF.GI.add, NF.GI.isZero, NF.GI.one, NF.GI.ofInt, NF.oneF]
